@@ -56,7 +56,7 @@ DESCRIPTION = {
         "quick": ["run_failed_after_registration", "provider_reused_after_failed_run", "overlapping_nonempty_sessions",
                   "default_provider_concurrent", "hygiene_probe"],
         "thorough": ["run_failed_after_registration", "provider_reused_after_failed_run", "overlapping_nonempty_sessions",
-                     "default_provider_concurrent", "hygiene_probe", "same_text_two_providers"],
+                     "default_provider_concurrent", "hygiene_probe", "same_text_two_providers", "sqlalchemy_provider", "tsql_split_mode", "silent_mode"],
     },
 }
 
@@ -109,8 +109,37 @@ def _make_sim_provider_class():
 _SimProvider = None
 
 
+_sa_count = [0]
+
+
+def build_sqlalchemy_provider(meta: dict):
+    """The real SQLAlchemyMetaDataProvider over file-backed sqlite databases in the run's scratch directory (one
+    shared connection, so that ATTACHed schemas persist and simulated threads can use it one at a time)."""
+    import tempfile
+
+    from sqlalchemy import text
+    from sqlalchemy.pool import StaticPool
+
+    from sqllineage.core.metadata.sqlalchemy import SQLAlchemyMetaDataProvider
+
+    base = os.environ.get("VERIF_WORK") or tempfile.gettempdir()
+    _sa_count[0] += 1
+    d = tempfile.mkdtemp(prefix=f"c12sa{os.getpid()}_{_sa_count[0]}_", dir=base)
+    prov = SQLAlchemyMetaDataProvider(f"sqlite:///{d}/main.db", {"poolclass": StaticPool, "connect_args": {"check_same_thread": False}})
+    with prov.engine.connect() as conn:
+        for schema in sorted({k.split(".")[0] for k in meta}):
+            conn.execute(text(f"ATTACH DATABASE '{d}/{schema}.db' AS '{schema}'"))
+        for full, cols in sorted(meta.items()):
+            schema, table = full.split(".")
+            conn.execute(text(f"CREATE TABLE {schema}.{table} ({', '.join(c + ' INTEGER' for c in cols)})"))
+        conn.commit()
+    return prov
+
+
 def build_provider(ps: dict):
     global _SimProvider
+    if ps["kind"] == "sqlalchemy":
+        return build_sqlalchemy_provider(ps["meta"])
     if ps["kind"] == "sim":
         if _SimProvider is None:
             _SimProvider = _make_sim_provider_class()
@@ -305,7 +334,10 @@ def run_one(spec: dict) -> dict:
         ps = spec["providers"][pid] if pid is not None else {"kind": "dummy", "meta": {}}
         with no_preempt():
             got = probe_provider(prov)
-            want = probe_provider(build_provider(ps))
+            if ps["kind"] == "sqlalchemy":  # a fresh one answers straight from the tables that were created
+                want = {t: [f"{t}.{c}" for c in ps["meta"].get(t, [])] for t in PROBE_TABLES}
+            else:
+                want = probe_provider(build_provider(ps))
         w.probe("hygiene_probe")
         if got != want:
             bad = {k: got[k] for k in got if got[k] != want[k]}
@@ -330,6 +362,8 @@ def run_one(spec: dict) -> dict:
             w.probe("same_text_two_providers")
         w.session_nonempty[t.idx] = False
         w.log(t.idx, "run.start", [run["tag"], run["dialect"], pkey])
+        if rec["prov_kind"] == "sqlalchemy":
+            w.probe("sqlalchemy_provider")
         if run["dialect"] == "tsql":
             w.probe("tsql_split_mode")
         if run.get("silent"):
@@ -522,6 +556,8 @@ def gen(seed, tier="quick") -> dict:
         own = []
         for _ in range(g.choice([1, 1, 2])):
             kind = "sim" if g.random() < 0.7 else "dummy"
+            if tier == "thorough" and g.random() < 0.12:
+                kind = "sqlalchemy"  # the real SQLAlchemy provider over scratch sqlite files
             meta = dict(BASE_META) if g.random() < 0.75 else ({k: v for k, v in BASE_META.items() if g.random() < 0.5} or {"b.x1": BASE_META["b.x1"]})
             providers.append({"kind": kind, "meta": meta})
             own.append(len(providers) - 1)
